@@ -9,6 +9,7 @@ package rules
 
 import (
 	"fmt"
+	"go/ast"
 	"go/token"
 	"go/types"
 	"math"
@@ -786,7 +787,7 @@ func indexResult(g *ssa.Function) *idxResult {
 // searchHit: j is the result of a search helper (indexResult) asked about the very sequence base denotes: then j is
 // below len(base) whenever it is not one of the helper's negative results; nonneg tells whether the conditions on j at
 // the site exclude those.
-func searchHit(j ssa.Value, base ssa.Value, conds []core.CondEdge) (match, nonneg bool) {
+func searchHit(j ssa.Value, base ssa.Value, conds []core.CondEdge, measured ...string) (match, nonneg bool) {
 	c, ok := j.(*ssa.Call)
 	if !ok || c.Call.IsInvoke() {
 		return false, false
@@ -796,7 +797,12 @@ func searchHit(j ssa.Value, base ssa.Value, conds []core.CondEdge) (match, nonne
 		return false, false
 	}
 	want := canon(c.Call.Args[sum.param]) + sum.path
-	if canon(base) != want && canon(derefLocal(base)) != want {
+	if len(measured) > 0 && measured[0] != "" {
+		// an index forwarded to a callee: the callee indexes measured (a field path of the receiver it is called on)
+		if measured[0] != want {
+			return false, false
+		}
+	} else if canon(base) != want && canon(derefLocal(base)) != want {
 		return false, false
 	}
 	lb := int64(0)
@@ -911,8 +917,8 @@ func inRange(s varIdxSite, idx ssa.Value, ctx *idxCtx, depth int) (string, strin
 		}
 	}
 	// the result of a search helper that returns an index of this very sequence or a negative "not found"
-	if s.measured == "" {
-		if match, nonneg := searchHit(idx, base, ctx.conds); match && nonneg {
+	{
+		if match, nonneg := searchHit(idx, base, ctx.conds, s.measured); match && nonneg {
 			lb = max(lb, 0)
 			setBelow("index returned by a search of the same value (its negative results are excluded here)")
 		}
@@ -1180,7 +1186,8 @@ func forwardedIndexParams(fns []*ssa.Function) map[*ssa.Function]idxForward {
 		if fn.Signature.Recv() == nil || len(fn.Blocks) != 1 {
 			continue
 		}
-		for _, s := range varIndexSites(fn) {
+		sites := varIndexSites(fn)
+		for _, s := range sites {
 			prm, ok := s.idx.(*ssa.Parameter)
 			if !ok || s.kind != "index" {
 				continue
@@ -1191,8 +1198,47 @@ func forwardedIndexParams(fns []*ssa.Function) map[*ssa.Function]idxForward {
 				}
 			}
 		}
+		// x[:p] / x[p+1:] / x[p] all on one field path of the receiver with one parameter p: a valid index p of that
+		// path makes every one of them in range, so the obligation `p is an index of recv.path` goes to the callers
+		if _, done := out[fn]; !done && len(sites) > 0 {
+			param, measured, all := 0, "", true
+			for _, s := range sites {
+				prm := forwardedParam(s)
+				// the field path as it is read (not what this very function stores into it afterwards)
+				m := regexp.MustCompile(`\b`+regexp.QuoteMeta(fn.Params[0].Name())+`\b`).ReplaceAllString(canon(s.base), "recv")
+				k := 0
+				for i, p := range fn.Params {
+					if prm != nil && p == prm && i > 0 {
+						k = i
+					}
+				}
+				if k == 0 || !strings.HasPrefix(m, "recv") || (param != 0 && (param != k || measured != m)) {
+					all = false
+					break
+				}
+				param, measured = k, m
+			}
+			if all && !ast.IsExported(fn.Name()) {
+				out[fn] = idxForward{param: param, measured: measured}
+			}
+		}
 	}
 	return out
+}
+
+// forwardedParam: the parameter a site's index is (x[p], x[:p]) or is one more than (x[p+1:]); nil otherwise.
+func forwardedParam(s varIdxSite) *ssa.Parameter {
+	if prm, ok := s.idx.(*ssa.Parameter); ok && (s.kind == "index" || s.kind == "high") {
+		return prm
+	}
+	if bo, ok := s.idx.(*ssa.BinOp); ok && bo.Op == token.ADD && s.kind == "low" {
+		if k, isC := core.ConstInt(bo.Y); isC && k == 1 {
+			if prm, ok := bo.X.(*ssa.Parameter); ok {
+				return prm
+			}
+		}
+	}
+	return nil
 }
 
 // recvCanonOf renders a field path rooted at the receiver as "recv.f.g": the root is the receiver parameter of the
